@@ -22,7 +22,9 @@ import time
 
 VERIF = os.path.dirname(os.path.dirname(os.path.abspath(__file__)))
 REPO = os.environ.get('UWG_REPO', '/repo')
-LEAN_DIR = os.path.join(VERIF, 'lean')
+# (VERIF_LEAN_DIR: experiments on scratch copies use a private copy of the lake project, so that the
+#  regenerated Gen/*.lean tables of a mutated tree never touch the committed ones)
+LEAN_DIR = os.environ.get('VERIF_LEAN_DIR') or os.path.join(VERIF, 'lean')
 ALLOWED_AXIOMS = {'propext', 'Classical.choice', 'Quot.sound'}
 FORBIDDEN = re.compile(
     r'\b(sorry|admit|native_decide|bv_decide|implemented_by|unsafe)\b|^\s*axiom\s|maxHeartbeats\s+0')
